@@ -32,6 +32,22 @@ class Check:
         self._known = load_known(pid)
         self._n = 0
         self.parts = {}
+        rp = os.environ.get("VERIF_REPLAY")
+        own = False
+        try:
+            own = "VERIF_REPLAY" in open(sys.argv[0]).read()
+        except Exception:
+            pass
+        if rp and os.path.exists(rp) and not own:
+            # checks without an instance-level replay re-run completely; the recorded violation is shown first and the
+            # evidence of the last regular run is left untouched
+            try:
+                with open(rp) as fh:
+                    print("REPLAY of %s:\n%s\n(re-running the whole %s check, which regenerates this instance deterministically for the same VERIF_SEED)"
+                          % (rp, fh.read()[:3000], pid), flush=True)
+            except Exception:
+                pass
+            env.EVIDENCE = os.path.join(self.wd, "replay-evidence")
 
     # ---- coverage -------------------------------------------------
     def add_tlc(self, res, label=None):
